@@ -1,0 +1,28 @@
+//go:build !verif
+
+package app
+
+import (
+	"time"
+
+	"github.com/f1bonacc1/process-compose/src/command"
+	"github.com/f1bonacc1/process-compose/src/types"
+)
+
+// No-op stubs of the verification hooks (see verif_on.go, build tag `verif`).
+
+func verifCommander(_ *Process) command.Commander { return nil }
+
+func verifTrace(_ *Process, _ string, _ ...any) {}
+
+func verifTraceDep(_ *types.ProcessConfig, _ string, _ string, _ *Process) {}
+
+func verifTraceRunner(_ *ProjectRunner, _ string, _ ...any) {}
+
+func verifGate(_ *Process, _ string) {}
+
+func verifGateName(_ string, _ string) {}
+
+func verifRegister(_ *Process) {}
+
+func verifBackoff(_ *Process, _ time.Duration) (time.Duration, bool) { return 0, false }
